@@ -207,3 +207,54 @@ def literal_suffix(branch) -> str:
         else:
             break
     return s
+
+
+def finite_strings(seq, limit: int = 512) -> list[str] | None:
+    """All strings matched by a repeat-free sequence of literals, alternations and groups (None if not finite/simple)."""
+    outs = ['']
+    for op, av in seq:
+        if op == sre.LITERAL:
+            outs = [o + chr(av) for o in outs]
+        elif op == sre.BRANCH:
+            alts = []
+            for alt in av[1]:
+                sub = finite_strings(alt, limit)
+                if sub is None:
+                    return None
+                alts.extend(sub)
+            outs = [o + a for o in outs for a in alts]
+        elif op == sre.SUBPATTERN:
+            sub = finite_strings(av[3], limit)
+            if sub is None:
+                return None
+            outs = [o + a for o in outs for a in sub]
+        elif op == sre.AT:
+            continue
+        else:
+            return None
+        if len(outs) > limit:
+            return None
+    return outs
+
+
+def group_strings(pattern: str, flags: int, group: int) -> list[str] | None:
+    """The finite language of capturing group `group` of the pattern."""
+    def find(seq):
+        for op, av in seq:
+            if op == sre.SUBPATTERN:
+                if av[0] == group:
+                    return finite_strings(av[3])
+                r = find(av[3])
+                if r is not None:
+                    return r
+            elif op == sre.BRANCH:
+                for alt in av[1]:
+                    r = find(alt)
+                    if r is not None:
+                        return r
+            elif op in (sre.MAX_REPEAT, sre.MIN_REPEAT):
+                r = find(av[2])
+                if r is not None:
+                    return r
+        return None
+    return find(parse(pattern, flags))
